@@ -378,7 +378,8 @@ def symmetric_moving_average(a, wing_width):
     n = len(a)
     out = np.empty(n, dtype=a.dtype)
     asum = a[:wing_width].sum()
-    count = wing_width
+    # The initial window holds at most all samples
+    count = min(wing_width, n)
     for i in range(len(a)):
         # Index of the sample that just disappeared
         # from the window
